@@ -1217,7 +1217,14 @@ def c11c(F, R):
                 R.bad("call_names", f"the call-name set `{CN}` is built from {sorted(callees)} / locals {sorted(locals_used - inner - params)}", loc(cn))
         # the labels set must be the one fed from Label nodes and cleared after use
         fed = any(m.get("k") == "MethodCall" and m["name"] == "insert" and ekey(m["recv"]) == CL for m in walk(f["hir"]["value"], pats=False))
-        cleared = any(m.get("k") == "MethodCall" and m["name"] in ("clear", "drain") and ekey(m["recv"]) == CL for m in walk(n["then"], pats=False))
+        # ... cleared once the labels have been handed to a node: inside the guarded branch, or - when both branches share the tail -
+        # later in the block that holds the guard (the same arm of the per-node dispatch)
+        from .p_parse import parent_map as _pmap
+        pm_ = _pmap(f["hir"]["value"])
+        scope = n
+        while id(scope) in pm_ and not ("pat" in pm_[id(scope)] and "body" in pm_[id(scope)] and "k" not in pm_[id(scope)]):
+            scope = pm_[id(scope)]
+        cleared = any(m.get("k") == "MethodCall" and m["name"] in ("clear", "drain") and ekey(m["recv"]) == CL for m in walk(scope, pats=False))
         if fed and cleared:
             R.ok("func-entry-guard", detail=f"FuncEntry inserted iff {CL} ∩ {CN} is non-empty; {CL} is cleared afterwards")
         else:
